@@ -135,9 +135,11 @@ def run(ctx):
                                       '--fast', fast, '--n0', cfg['n0'], '--prog', COVER_PROG,
                                       '--schedules', sched], WHAT,
                                 label='cover replay strategy %d inl=%d fast=%d' % (cfg['strat'], inl, fast))
-            traces.append(tr)
-            execs += tot.get('completed', 0)
-    ctx.sample_trace(traces[-1], 14, skip=1)
+            if tot.get('executions'):      # (a crashed driver is already reported; its trace is cut off)
+                traces.append(tr)
+                execs += tot.get('completed', 0)
+    if traces:
+        ctx.sample_trace(traces[-1], 14, skip=1)
 
     # E1: exhaustive ----------------------------------------------------------------------------
     ex = ('EndLdSize', 'SzLd', 'RdElem')
@@ -160,9 +162,10 @@ def run(ctx):
     tr = os.path.join(ctx.work, 'random.ndjson')
     tot, _ = ctx.driver(exe, ['--out', tr, '--random', n, '--seed', ctx.seed, '--randprog'], WHAT,
                         label='random programs, random schedules, all trait combinations')
-    traces.append(tr)
-    execs += tot.get('completed', 0)
-    ctx.sample_trace(tr, 8, skip=1)
+    if tot.get('executions'):
+        traces.append(tr)
+        execs += tot.get('completed', 0)
+        ctx.sample_trace(tr, 8, skip=1)
 
     # E3: one TLC run over the concatenation ------------------------------------------------------
     alltr = os.path.join(ctx.work, 'all.ndjson')
@@ -170,8 +173,9 @@ def run(ctx):
         for t in traces:
             with open(t, 'rb') as f:
                 shutil.copyfileobj(f, out)
-    ctx.validate(SPEC, 'CVecTrace.tla', 'CVecTrace.cfg', alltr, WHAT, executions=execs,
-                 label='cover + random traces', timeout=3000)
+    if traces:
+        ctx.validate(SPEC, 'CVecTrace.tla', 'CVecTrace.cfg', alltr, WHAT, executions=execs,
+                     label='cover + random traces', timeout=3000)
 
     ctx.assumptions += [
         'TLA+ interleaving semantics are sequentially consistent (weak-memory effects are C10)',
